@@ -178,6 +178,25 @@ func C16() int {
 		}
 		args = append(args, cf.flags...)
 		env := append(atlasEnv(srv, dir), "ATLAS_PUBLIC_KEY="+atlasPub, "ATLAS_PRIVATE_KEY="+atlasPriv)
+		if ci%2 == 0 {
+			// the output paths already hold older, longer results of an earlier run with the same --outputFile
+			stale := bytes.Repeat([]byte(`{"stale":"per-host output of an earlier run"}`+"\n"), 4000)
+			for i := 0; i <= len(names); i++ {
+				os.WriteFile(fmt.Sprintf("%s.%d", outp, i), stale, 0o644)
+			}
+			os.WriteFile(outp, stale, 0o644)
+			c.Count("cli_runs_onto_existing_longer_output_files", 1)
+		}
+		if S == 0 || ci%3 == 0 {
+			// local time zone with a daylight-saving switch three days ago (clocks back / forward by
+			// one hour): "the last seven days" of epoch seconds must not follow wall-clock arithmetic
+			kind := []string{"fall-back", "spring-forward"}[ci%2]
+			zf := filepath.Join(dir, "zone-"+kind)
+			if err := os.WriteFile(zf, tzifWithRecentSwitch(time.Now().Unix(), kind == "fall-back"), 0o644); err == nil {
+				env = append(env, "TZ="+zf)
+				c.Count("cli_runs_in_a_zone_with_a_dst_switch_3_days_ago:"+kind, 1)
+			}
+		}
 		t0 := time.Now().Unix()
 		r := s.CLI(sut.Run{Args: args, Dir: dir, Env: env, Timeout: 3 * time.Minute})
 		t1 := time.Now().Unix()
@@ -251,7 +270,7 @@ func C16() int {
 				c.Violation("output-file-mismatch", fmt.Sprintf("%s: %s.%d (%d bytes, err %v) is not the redaction of host %d's log (%s, %d bytes expected): it holds %s", cf.name, filepath.Base(outp), i, len(got), err, i, names[i], len(want), which), rp)
 			}
 		}
-		if _, err := os.Stat(fmt.Sprintf("%s.%d", outp, len(names))); err == nil {
+		if b, err := os.ReadFile(fmt.Sprintf("%s.%d", outp, len(names))); err == nil && !bytes.HasPrefix(b, []byte(`{"stale":`)) {
 			c.Violation("extra-output-file", fmt.Sprintf("%s: %s.%d exists although there are only %d hosts", cf.name, filepath.Base(outp), len(names), len(names)), rp)
 		}
 		if left := tmpLeft(dir); len(left) > 0 {
@@ -297,4 +316,36 @@ func whyKind(why string) string {
 		return "wrong-request"
 	}
 	return "other"
+}
+
+// tzifWithRecentSwitch renders a version-1 TZif zone file whose last transition happened
+// three days before now: from daylight time (UTC-4) back to standard time (UTC-5) when
+// fallBack, the other way round otherwise. Handed to the tool through TZ=<absolute path>.
+func tzifWithRecentSwitch(now int64, fallBack bool) []byte {
+	be32 := func(v int64) []byte { return []byte{byte(v >> 24), byte(v >> 16), byte(v >> 8), byte(v)} }
+	var b bytes.Buffer
+	b.WriteString("TZif")
+	b.WriteByte(0)
+	b.Write(make([]byte, 15))
+	// counts: isut, isstd, leap, time, type, char
+	for _, n := range []int64{0, 0, 0, 3, 2, 8} {
+		b.Write(be32(n))
+	}
+	day := int64(86400)
+	trans := []int64{now - 400*day, now - 200*day, now - 3*day}
+	idx := []byte{1, 0, 1} // std, dst, std
+	if !fallBack {
+		idx = []byte{0, 1, 0} // dst, std, dst
+	}
+	for _, t := range trans {
+		b.Write(be32(t))
+	}
+	b.Write(idx)
+	// type 0: UTC-4, dst, "VDT"; type 1: UTC-5, std, "VST"
+	b.Write(be32(-4 * 3600))
+	b.Write([]byte{1, 0})
+	b.Write(be32(-5 * 3600))
+	b.Write([]byte{0, 4})
+	b.WriteString("VDT\x00VST\x00")
+	return b.Bytes()
 }
